@@ -29,7 +29,7 @@ CONSTANTS Peers, Ids,
           FollowUpHb, Dlazy, FactorPct, GossipThr,
           MaxHb, MaxStim,
           AccArgs,        \* set of <<m, from>>, from \in Peers \cup {"self"}
-          IHaveArgs,      \* set of <<p, sequence of ids>>
+          IHaveArgs,      \* set of <<p, sequence of ids>> or <<p, sequence of ids, entry sizes>> (several entries in one RPC)
           IWantArgs,      \* set of <<p, sequence of ids>>
           IDWArgs,        \* set of <<p, sequence of ids>>
           ScoreArgs,      \* set of <<p, v>>
@@ -93,7 +93,8 @@ Init ==
     /\ asks = {}
     /\ hist = <<>> /\ cov = {}
 
-Stim(a, p, m, ids, v) == hist' = Append(hist, [a |-> a, p |-> p, m |-> m, ids |-> ids, v |-> v])
+StimS(a, p, m, ids, v, sp) == hist' = Append(hist, [a |-> a, p |-> p, m |-> m, ids |-> ids, v |-> v, split |-> sp])
+Stim(a, p, m, ids, v) == StimS(a, p, m, ids, v, <<>>)
 Tag(S) == cov' = cov \cup S
 CanStim == stim < MaxStim /\ stim' = stim + 1 /\ hb' = hb
 
@@ -137,18 +138,27 @@ BumpHave(p) == IF score[p] >= GossipThr THEN [peerhave EXCEPT ![p] = Sat(@ + 1, 
 BumpCtl(p) == ctl' = [ctl EXCEPT ![p] = Sat(@ + 1, MaxIHaveMsgs + 2)]
 
 FirstK(ids, k) == {ids[i] : i \in 1..Min(Len(ids), k)}
+(* One RPC may carry SEVERAL control entries of a kind: `sp` (a sequence of sizes, <<>> = one entry) cuts the id
+   list of a stimulus into consecutive entries.  handleIHave applies MaxIHaveLength to each entry and then the
+   iasked budget to their union; handleIWant and handleIDontWant count over the whole RPC.                    *)
+RECURSIVE Cut(_, _)
+Cut(ids, sp) == IF sp = <<>> THEN (IF ids = <<>> THEN <<>> ELSE <<ids>>)
+                ELSE LET n == Min(Head(sp), Len(ids)) IN
+                     <<SubSeq(ids, 1, n)>> \o Cut(SubSeq(ids, n + 1, Len(ids)), Tail(sp))
+FirstKEach(ids, sp, k) == LET es == Cut(ids, sp) IN UNION {FirstK(es[i], k) : i \in DOMAIN es}
+Sp(x) == IF Len(x) >= 3 THEN x[3] ELSE <<>>
 
-RecvIHave(p, ids) ==
+RecvIHave(p, ids, sp) ==
     /\ CanStim /\ Nameable(ids)
     /\ BumpCtl(p)
     /\ peerhave' = BumpHave(p)
-    /\ LET unseen == FirstK(ids, MaxIHaveLen) \ (IF "AskSeen" \in Bug THEN {} ELSE seen)
+    /\ LET unseen == FirstKEach(ids, sp, MaxIHaveLen) \ (IF "AskSeen" \in Bug THEN {} ELSE seen)
            over   == IF "IHaveMsgsOffByOne" \in Bug THEN peerhave'[p] > MaxIHaveMsgs + 1
                                                     ELSE peerhave'[p] > MaxIHaveMsgs
            ask    == score[p] >= GossipThr /\ ~over /\ iasked[p] < MaxIHaveLen /\ unseen # {}
            iask   == IF ask THEN Min(Cardinality(unseen), MaxIHaveLen - iasked[p]) ELSE 0
            must   == /\ score[p] >= GossipThr /\ ctl[p] < MaxIHaveMsgs /\ askedIn[p] < MaxIHaveLen
-                     /\ FirstK(ids, MaxIHaveLen) \ seen # {} IN
+                     /\ FirstKEach(ids, sp, MaxIHaveLen) \ seen # {} IN
        \E S \in SUBSET unseen :
           /\ Cardinality(S) = iask
           /\ iasked' = [iasked EXCEPT ![p] = @ + iask]
@@ -157,7 +167,7 @@ RecvIHave(p, ids) ==
                                              THEN [promises EXCEPT ![t][p] = hb + FollowUpHb]
                                              ELSE promises
           /\ out' = [a |-> "ihave", p |-> p, ids |-> ids, iwant |-> S, must |-> must,
-                     want |-> Min(Cardinality(FirstK(ids, MaxIHaveLen) \ seen), MaxIHaveLen - askedIn[p])]
+                     want |-> Min(Cardinality(FirstKEach(ids, sp, MaxIHaveLen) \ seen), MaxIHaveLen - askedIn[p])]
           /\ askedIn' = [askedIn EXCEPT ![p] = @ + Cardinality(S)]
           /\ honoured' = [honoured EXCEPT ![p] = @ + (IF S = {} THEN 0 ELSE 1)]
           /\ asks' = IF S = {} THEN asks
@@ -169,13 +179,15 @@ RecvIHave(p, ids) ==
                  \cup (IF S # {} /\ must /\ "cappedlen" \in cov THEN {"reset_ihave_len"} ELSE {})
                  \cup (IF S # {} /\ must /\ "cappedmsgs" \in cov THEN {"reset_ihave_msgs"} ELSE {})
                  \cup (IF S # {} /\ must /\ ctl[p] = MaxIHaveMsgs - 1 THEN {"ihave_last_honoured"} ELSE {})
-                 \cup (IF S = {} /\ FirstK(ids, MaxIHaveLen) # {} /\ unseen = {} THEN {"ihave_all_seen"} ELSE {})
+                 \cup (IF S = {} /\ FirstKEach(ids, sp, MaxIHaveLen) # {} /\ unseen = {} THEN {"ihave_all_seen"} ELSE {})
                  \cup (IF S # {} /\ hb > 0 /\ "capped" \in cov THEN {"reset_ihave"} ELSE {})
                  \cup (IF S # {} /\ honoured[p] >= 2 /\ Cardinality(S) < Cardinality(unseen) THEN {"ask_sum_third_batch"} ELSE {})
                  \cup (IF S = {} /\ unseen # {} /\ score[p] >= GossipThr /\ honoured[p] >= 2 /\ iasked[p] >= MaxIHaveLen /\ ~over
                          THEN {"ask_sum_refused"} ELSE {})
+                 \cup (IF S # {} /\ Len(Cut(ids, sp)) >= 2 /\ (\A i \in DOMAIN Cut(ids, sp) : Len(Cut(ids, sp)[i]) <= MaxIHaveLen)
+                          /\ Cardinality(unseen) > MaxIHaveLen THEN {"ihave_multi_entry_over"} ELSE {})
                  \cup (IF score[p] < GossipThr THEN {"ihave_low_score"} ELSE {}))
-    /\ Stim("ihave", p, "", ids, 0)
+    /\ StimS("ihave", p, "", ids, 0, sp)
     /\ UNCHANGED <<mc, peertx, seen, score, peerdontwant, unwanted, pen,
                    putHb, served, reqs, dwAt, dwAny, idwSeen>>
 
@@ -190,7 +202,7 @@ ServeSeq(p, ids, tx, acc) ==
                     stop == IF "RetxOffByOne" \in Bug THEN c >= Retx ELSE c > Retx IN
                 ServeSeq(p, Tail(ids), [tx EXCEPT ![m][p] = c], IF stop THEN acc ELSE acc \cup {m})
 
-RecvIWant(p, ids) ==
+RecvIWant(p, ids, sp) ==
     /\ CanStim /\ Nameable(ids)
     /\ BumpCtl(p)
     /\ peerhave' = BumpHave(p)
@@ -208,18 +220,24 @@ RecvIWant(p, ids) ==
               \cup (IF m \notin resp /\ InWindow(m) /\ DWMust(p, m) /\ served[p][m] < Retx /\ score[p] >= GossipThr THEN {"idw_honoured"} ELSE {})
               \cup (IF m \in resp /\ dwAny[p][m] >= 0 /\ hb - dwAny[p][m] = IDWTTL THEN {"idw_expired"} ELSE {})
               \cup (IF m \notin resp /\ InWindow(m) /\ score[p] < GossipThr THEN {"iwant_low_score"} ELSE {})
+              \cup (IF Len(Cut(ids, sp)) >= 2 /\ InWindow(m) /\ score[p] >= GossipThr /\ ~DWMay(p, m)
+                       /\ (\A i \in DOMAIN Cut(ids, sp) : Cardinality({j \in DOMAIN Cut(ids, sp)[i] : Cut(ids, sp)[i][j] = m}) <= Retx)
+                       /\ reqs[p][m] < Retx /\ reqs[p][m] + Cardinality({i \in DOMAIN ids : ids[i] = m}) > Retx
+                      THEN {"iwant_multi_entry_over"} ELSE {})
               : m \in Range(ids)})
     /\ reqs' = [reqs EXCEPT ![p] = [m \in Ids |-> Sat(@[m] + Cardinality({i \in DOMAIN ids : ids[i] = m}), Retx + 2)]]
-    /\ Stim("iwant", p, "", ids, 0)
+    /\ StimS("iwant", p, "", ids, 0, sp)
     /\ UNCHANGED <<mc, seen, score, iasked, peerdontwant, unwanted, promises, pen,
                    putHb, dwAt, dwAny, idwSeen, askedIn, honoured, asks>>
 
-RecvIDontWant(p, ids) ==
+RecvIDontWant(p, ids, sp) ==
     /\ CanStim /\ Nameable(ids)
     /\ BumpCtl(p)
     /\ peerhave' = BumpHave(p)
     /\ LET over == peerdontwant[p] >= MaxIDWMsgs
-           eff  == IF over THEN {} ELSE FirstK(ids, MaxIDWLen)
+           eff  == IF over THEN {}
+                   ELSE IF "IDWLenPerEntry" \in Bug THEN FirstKEach(ids, sp, MaxIDWLen)   \* budget restarted per entry
+                   ELSE FirstK(ids, MaxIDWLen)
            mustEff == IF idwSeen[p] < MaxIDWMsgs THEN FirstK(ids, MaxIDWLen) ELSE {} IN
        /\ peerdontwant' = IF over THEN peerdontwant ELSE [peerdontwant EXCEPT ![p] = @ + 1]
        /\ unwanted' = [unwanted EXCEPT ![p] = [m \in Ids |-> IF m \in eff THEN IDWTTL ELSE @[m]]]
@@ -229,9 +247,11 @@ RecvIDontWant(p, ids) ==
        /\ Tag((IF eff # {} THEN {"idw_in"} ELSE {})
               \cup (IF over /\ \E m \in FirstK(ids, MaxIDWLen) : unwanted[p][m] # IDWTTL THEN {"cap_idw_msgs"} ELSE {})
               \cup (IF ~over /\ \E m \in Range(ids) \ FirstK(ids, MaxIDWLen) : unwanted[p][m] # IDWTTL THEN {"cap_idw_len"} ELSE {})
+              \cup (IF ~over /\ Len(Cut(ids, sp)) >= 2 /\ (\A i \in DOMAIN Cut(ids, sp) : Len(Cut(ids, sp)[i]) <= MaxIDWLen)
+                       /\ \E m \in Range(ids) \ FirstK(ids, MaxIDWLen) : unwanted[p][m] # IDWTTL THEN {"idw_multi_entry_over"} ELSE {})
               \cup (IF eff # {} /\ "cap_idw_msgs" \in cov THEN {"reset_idw"} ELSE {}))
     /\ idwSeen' = [idwSeen EXCEPT ![p] = Sat(@ + 1, MaxIDWMsgs + 1)]
-    /\ Stim("idontwant", p, "", ids, 0)
+    /\ StimS("idontwant", p, "", ids, 0, sp)
     /\ UNCHANGED <<mc, peertx, seen, score, iasked, promises, pen,
                    putHb, served, reqs, askedIn, honoured, asks>>
 
@@ -295,9 +315,9 @@ Heartbeat ==
 
 Next ==
     \/ \E x \in AccArgs : Accept(x[1], x[2])
-    \/ \E x \in IHaveArgs : RecvIHave(x[1], x[2])
-    \/ \E x \in IWantArgs : RecvIWant(x[1], x[2])
-    \/ \E x \in IDWArgs : RecvIDontWant(x[1], x[2])
+    \/ \E x \in IHaveArgs : RecvIHave(x[1], x[2], Sp(x))
+    \/ \E x \in IWantArgs : RecvIWant(x[1], x[2], Sp(x))
+    \/ \E x \in IDWArgs : RecvIDontWant(x[1], x[2], Sp(x))
     \/ \E x \in ScoreArgs : SetScore(x[1], x[2])
     \/ Heartbeat
 
